@@ -185,12 +185,21 @@ def run_unit(unit):
                 n += 1
                 compare(acc, "swtpm", "SWTPMLog", SWTPMLog, t, carried, lambda: {"harness": "container", "container": "swtpm", "stream": label, "layout": lay, "input": t.hex(), "text": t.decode()[:200]}, strict)
     elif cont == "pcapng":
-        variants = ("exact", "trailer")
+        # bytes behind the message's own size field: none, the 4 of the simulator, and other amounts
+        tails = {"exact": b"", "trailer": b"\x00\x00\x00\x00", "trailer1": b"\xaa", "trailer2": b"\x80\x01", "trailer7": b"\x80\x01\x00\x00\x00\x0a\x00"}
+        n_m = len(msgs)
+        combos = [("exact",) * n_m, ("trailer",) * n_m]
+        for i in range(n_m):
+            for v in tails:
+                if v != "exact":
+                    combos.append(tuple(v if j == i else "exact" for j in range(n_m)))
+                    combos.append(tuple(v if j == i else "trailer" for j in range(n_m)))
+        combos = sorted(set(combos))
         extras = (None, "runt", "empty", "runt-first")
-        for framing, vs, extra in itertools.product(("ip", "eth"), itertools.product(variants, repeat=len(msgs)), extras):
+        for framing, vs, extra in itertools.product(("ip", "eth"), combos, extras):
             pkts = []
             for m, v in zip(msgs, vs):
-                pkts.append(m if v == "exact" else m + b"\x00\x00\x00\x00")
+                pkts.append(m + tails[v])
             if extra == "runt":
                 pkts.insert(1, b"\x00" * 9)
             elif extra == "empty":
